@@ -9,7 +9,7 @@ DISTINCT_RULE = (
     "cases = seeded books (0-8 levels, gaps, empty sides, tiny/huge sizes) x limit orders through/at/behind the book; distinct = "
     "(side, price relative to best, FOK?, min-fill class, BPE, book depth<=4, response status) cells actually reached in SimulatedOrder.place"
 )
-RULES = ["placement", "level", "fok", "bpe-off", "fragment", "available", "book-vs-file"]
+RULES = ["placement", "level", "fok", "bpe-off", "fragment", "available", "book-vs-file", "book-current"]
 MINIMA = {"quick": {"rule_placement": 8000, "rule_fok": 1500, "rule_bpe-off": 800, "rule_fragment": 4000, "rule_available": 300}, "thorough": {"rule_placement": 300000}}
 ASSUMPTIONS = ["book snapshot = runner.ex ladders copied at entry of SimulatedOrder.place, itself compared with the reader's accumulation of the raw file for that publish time (rule book-vs-file)", "simulated_full_match runs are exempt from the level clause only"]
 WEIGHTS = [("thin", 3), ("deep", 4), ("nobpe", 3), ("fullmatch", 1), ("lines", 2), ("availprices", 2), ("hostile", 1), ("recorded", 2)]
@@ -22,6 +22,9 @@ def plan(tier, seed):
         sp = dict(_sim.PROFILES[c["profile"]]["script_params"])
         sp.update(SCRIPT)
         c["overrides"] = {"script_params": sp}
+    # paper trading: the order reaches the simulated exchange after its latency, on a pool thread, while the main loop keeps processing
+    # market updates - it is matched against the book in force when it arrives
+    cases += [{"mode": "paper_walk", "seed": seed, "idx": i, "len": 40 + i % 50} for i in range(300 if tier == "quick" else 6000)]
     return cases
 
 
@@ -29,6 +32,16 @@ LISTENER = ({"inplay": True}, {"inplay": False}, {"seconds_to_start": 540}, {"se
 
 
 def run(desc):
+    if desc.get("mode") == "paper_walk":
+        from .. import paperwalk
+
+        r = paperwalk.walk(desc)
+        out = O.Out(PROPERTY)
+        O.book_at_arrival_is_current(r.tr, out, {"paper": True})
+        O.c05_fills(r.tr, out)
+        out.c("paper_walks")
+        out.d("c05paper:%d" % min(len(r.orders), 10))
+        return out.result()
     filt = desc["idx"] % 5 == 3 and desc["profile"] not in ("recorded",)
     if filt:
         # a listener filter skips part of the recording: what is matched against is still the recorded book of that moment.  The
@@ -47,6 +60,7 @@ def run(desc):
     out = O.Out(PROPERTY)
     O.abort_violation(tr, out)
     O.book_at_arrival_matches_file(tr, out, snaps)
+    O.book_at_arrival_is_current(tr, out)
     O.c05_fills(tr, out)
     O.c05_available(tr, out, snaps)
     return out.result(sample=_sim.sample_of(case, tr) if desc["idx"] < 2 else None)
